@@ -45,6 +45,22 @@ func (e *Eng) execFunc(fn *ssa.Function, args []*Val, bindings []*Val, st *State
 			fr.vals[fv] = v
 		}
 	}
+	// captured variables: closures hold a pointer to the variable's cell; contracts refer to the variable itself
+	// (its value when the closure starts running)
+	fr.freeVals = map[string]*Val{}
+	for _, fv := range fn.FreeVars {
+		cell := fr.vals[fv]
+		if cell == nil {
+			continue
+		}
+		if pt := derefType(fv.Type()); pt != nil {
+			t := e.load(st, e.locOfPtr(cell))
+			nm := e.sc.define("fv_"+fv.Name()+"_val", e.sortOf(pt), t, "captured variable "+fv.Name())
+			v := &Val{T: nm, Typ: pt, KnownLen: -1}
+			e.assumeWF(st, guard, v)
+			fr.freeVals[fv.Name()] = v
+		}
+	}
 	order, back := sortBlocksRPO(fn)
 	// loop ordinals in source order of header position
 	nl := 0
